@@ -25,7 +25,9 @@ def bounds(tier):
                 "ffd/bfd/bc": "all multisets of 1..7 items over 0..6 (B=6), 1..6 items over 0..10 (B=10), 1..8 items over 1..10 (B=20: bins of three and more items)",
                 "dyadic": "all sequences of 1..4 items over {0,1/8,..,1}, B=1, ff/ffd/bf/bfd",
                 "output types": "all 10 on multisets of 1..4 items over 0..6, B=6",
-                "big": "B=2**32, letters {1, 2**31-1, 2**31, 2**31+1, 2**32-1, 2**32}: all sequences of 1..4 (ff/bf), multisets of 1..5 (ffd/bfd/bc); the same letters divided by 2**32 with B=1 (fit heuristics)",
+                "halves": "multiples of 1/2 around B/2 and B (B=7, B=10): sequences of 1..4, multisets of 5..7; four fit heuristics",
+                "halves": "multiples of 1/2 around B/2 and B (B=7, B=10): sequences of 1..5, multisets of 5..8; four fit heuristics",
+            "big": "B=2**32, letters {1, 2**31-1, 2**31, 2**31+1, 2**32-1, 2**32}: all sequences of 1..4 (ff/bf), multisets of 1..5 (ffd/bfd/bc); the same letters divided by 2**32 with B=1 (fit heuristics)",
                 "count-sweep": "for every m in 1..40: m items of 6 (B=10) alone / with m fours / with fours and threes / with 2m ones: 4 fit heuristics in 3 orders, bin-completion, all output types",
                 "long-thin": "multisets of 9..15 items over {1,2} (B=5), {1,2,3} (B=7), {2,3,5} (B=10), {0,1,4} (B=4): ff/bf in 6 fixed orders, ffd/bfd/bc"}
     return {"ff/bf": "all sequences of 1..6 items over 0..6, B=6; all sequences of 1..5 over 0..10 step... (0,1,2,3,4,5,7,10), B=10",
@@ -75,6 +77,11 @@ def tasks(tier):
     fine = [Fraction(v, BIG_B) for v in BIG_LETTERS]
     for ch in spaces.chunked(spaces.sequences(fine, 1, 4 if q else 5), 400):
         ts.append(("dyadic", ch, 1))
+    for Bh, letters in scopes.HALVES.items():          # multiples of 1/2 around B/2 and B, odd and even bin size
+        for ch in spaces.chunked(spaces.sequences(letters, 1, 4 if q else 5), 600):
+            ts.append(("halves", ch, Bh))
+        for ch in scopes.chunk_multisets(letters, 5, 7 if q else 8, 300):
+            ts.append(("halves", ch, Bh))
     # many items over tiny alphabets: bins of many items, long scans over many open bins
     for alpha, lo, hi, B in LONG_THIN:
         for ch in scopes.chunk_multisets(alpha, lo, hi if not q else min(hi, lo + 6), 60):
@@ -135,8 +142,8 @@ def run_task(task):
     for it in chunk:
         items = [float(v) for v in it] if scope == "dyadic" else list(it)
         acc.point(nontrivial=(sum(items) > B))
-        if scope in ("seq-fit", "dyadic", "big-fit"):
-            algos = ("ff", "bf") if scope != "dyadic" else ("ff", "bf", "ffd", "bfd")
+        if scope in ("seq-fit", "dyadic", "big-fit", "halves"):
+            algos = ("ff", "bf") if scope not in ("dyadic", "halves") else ("ff", "bf", "ffd", "bfd")
             for a in algos:
                 _one(acc, {"algo": a, "items": items, "B": B}, False)
         elif scope in ("orders-fit", "long-orders"):
